@@ -6,10 +6,13 @@ SPEC = dict(
           "towards explicit targets: 0..57 around the initial capacity 7 and its doublings; 254..257 and 65534..65537 slots, where the "
           "internal index width changes, reached by exact EnsureSize/ShrinkToFit + complete fill + one more Put), compared with a "
           "list+index model after every operation (full audit: size, forward/backward iteration, first/last, lookups), with 1-6 live "
-          "registered iterators (forward/backward, GetIterator/GetIteratorAt/copies) judged by the iterator oracle (a)-(d) of DESIGN.md C09 "
+          "registered iterators (forward/backward, GetIterator/GetIteratorAt; copy/move-assigned, copy/move-constructed, swapped among each other "
+          "in every state incl. holding the private copy of a removed entry, detached, ended, other table: the target continues exactly like "
+          "the source) judged by the iterator oracle (a)-(d) of DESIGN.md C09 "
           "(entry = insertion generation; scratch copy allowed until one advance; SwapContents followed); key types uint32 / String / a "
           "key class whose HashCode() has 3 values; value type uint32 or an owning instrumented type whose live payload count must equal "
-          "the model's at the end of the case.  ordered leg: OrderedKeysHashtable / OrderedValuesHashtable with phases of auto-sort off and manual Move*: contents, "
+          "the model's at the end of the case; the surface leg also drives ImmutableHashtablePool with single-reference holders that share "
+          "table objects (a table another holder still has must never change).  ordered leg: OrderedKeysHashtable / OrderedValuesHashtable with phases of auto-sort off and manual Move*: contents, "
           "exact order (no operation but the documented re-sorting ones and moves may change the relative order of surviving entries, "
           "in particular no re-allocation), sortedness whenever documented.  A case is non-trivial when its population exceeded the initial capacity and at least one traversal under the "
           "(b)/(c) rules completed (boundary leg: at least one index-width change happened); distinct = distinct (seed, case) histories"),
@@ -32,7 +35,12 @@ SPEC = dict(
     min_stats={
         'regress': {'regress_exact_sizes': 9},
         'ops': {'iter_traversals_completed_unreordered_under_mutation': 50000, 'reallocations_with_live_iterators': 100000,
-                'iter_detached_advanced': 10000, 'tables_destroyed_before_their_iterators': 3000, 'live_count_checks': 1500},
+                'iter_detached_advanced': 10000, 'tables_destroyed_before_their_iterators': 3000, 'live_count_checks': 1500,
+                'iter_assign_copy': 20000, 'iter_assign_move': 5000, 'iter_assign_target_holding_scratch_copy': 5000,
+                'iter_assign_target_detached_by_clear_or_destruction': 5000, 'iter_assign_target_entry_was_moved': 4000,
+                'iter_assign_source_holding_scratch_copy': 5000, 'iter_assign_from_other_table': 8000, 'iter_assign_direction_change': 5000,
+                'iter_assign_source_at_end_or_default': 8000, 'iter_assign_target_at_end_or_default': 8000, 'iter_copy_construct': 8000,
+                'iter_self_assign': 10000, 'iter_swap_contents': 4000},
         'boundary': {'idxwidth_8to16_with_live_iterators': 2000, 'idxwidth_16to8_with_live_iterators': 2000,
                      'idxwidth_16to32_with_live_iterators': 21, 'idxwidth_32to16_with_live_iterators': 20,
                      'population_cross_256_up': 5000, 'population_cross_256_down': 5000,
@@ -41,8 +49,11 @@ SPEC = dict(
                      'iter_traversals_completed_unreordered_under_mutation': 1000},
         'ordered': {'audits_sortedness_required': 400000, 'ordered_inserts_in_the_middle': 30000, 'ordered_audits_while_autosort_off': 200000,
                     'ordered_reallocs_while_unsorted': 10000, 'ordered_reallocs_while_unsorted_with_live_iterators': 5000,
-                    'ordered_exact_order_checks': 10000, 'iter_traversals_completed_unreordered_under_mutation': 8000},
+                    'ordered_exact_order_checks': 10000, 'iter_traversals_completed_unreordered_under_mutation': 8000,
+                    'iter_assign_copy': 8000, 'iter_assign_target_holding_scratch_copy': 1000, 'iter_assign_target_entry_was_moved': 4000},
         'surface': {'op_WouldBeEqualToAfterPut': 30000, 'op_WouldBeEqualToAfterRemove': 30000, 'op_setPredicates': 30000,
-                    'op_Intersect': 30000, 'op_RemoveTable': 30000, 'op_SwapWithTable': 30000, 'pool_steps': 100000},
+                    'op_Intersect': 30000, 'op_RemoveTable': 30000, 'op_SwapWithTable': 30000, 'pool_steps': 100000,
+                    'pool_start_shared_by_two_holders_uncached_equal_content_cached': 800, 'pool_updated_in_place': 20000,
+                    'pool_start_held_by_one_holder_and_the_cache': 10000},
     },
 )
